@@ -37,7 +37,8 @@ class Loop(object):
 class Contract(object):
     def __init__(self, qual, params, returns=None, requires=None, ensures=None, raises=None, modifies=None, loops=None,
                  locals=None, kind='function', trusted=False, reason='', source=None, yields=None, rely=None, reify=None,
-                 no_other_exception=True, ghost=None, statics=None, native=None, runtime=True, lets=None):
+                 no_other_exception=True, ghost=None, statics=None, native=None, runtime=True, lets=None,
+                 tiers=('quick', 'thorough')):
         self.qual = qual
         self.params = list(params)          # [(name, Sort)] or (name, Sort, default_text)
         self.returns = returns
@@ -59,6 +60,7 @@ class Contract(object):
         self.statics = statics or {}        # names bound to python-side constants during verification (e.g. module globals)
         self.native = native                # how to call the real function when replaying: dotted path (default: qual)
         self.runtime = runtime              # clauses evaluable natively (no ghost state)
+        self.tiers = tiers
         self.lets = lets or {}              # name -> spec expression evaluated once in the pre-state, visible in every clause
         self.module = None
 
